@@ -148,6 +148,149 @@ def check_kernel(kname):
     return out
 
 
+# ---- one step of the optimised dict iteration (dict_iter_common): __Pyx_dict_iter_next_source_is_dict --------------------------------
+DICT_TEMPLATE = """# cython: language_level=3
+def dk(dict d):
+    r = []
+    for k in d:
+        r.append(k)
+        if k == 'grow': d['new'] = 1
+        if k == 'swap':
+            del d['swap']
+            d['other'] = 1
+        if k == 'del_last': del d['z']
+    else:
+        r.append('else')
+    return r
+def di(dict d):
+    r = []
+    for k, v in d.items():
+        r.append((k, v))
+        if k == 'del_last': del d['z']
+    else:
+        r.append('else')
+    return r
+"""
+_BD = None
+
+
+def check_dictiter(variant):
+    """variant: which outputs the loop asks for: 'key', 'value', 'key+value', 'item'"""
+    from ..cir.symex import Ptr
+    out = []
+    t0 = time.time()
+    T = int(os.environ.get('VF_QTIMEOUT', '60'))
+    fname = '__Pyx_dict_iter_next_source_is_dict'
+    try:
+        ex, env = _BD.new_exec(unroll=2)
+        for nm in ('Py_INCREF', 'Py_DECREF', 'Py_XDECREF', 'Py_XINCREF'):
+            ex.stubs[nm] = lambda ex_, g, a, rt, c: None
+        d, dinv = env.make_opaque('d')
+        orig, cur = z3.BitVec('orig_length', 64), z3.BitVec('current_size', 64)
+        found = z3.Bool('another_entry')
+        key = ex.new_region('key', size=None, lazy=True)
+        val = ex.new_region('value', size=None, lazy=True)
+        pt = ir.T('ptr', elem=ir.T('int', bits=8))
+        nexts = []
+
+        def dsize(ex_, g, a, rt, caller):
+            return cur
+
+        def dnext(ex_, g, a, rt, caller):
+            nexts.append(env.event(g, 'PyDict_Next', a))
+            gg = z3.And(g, found)
+            ex_.store(a[2], ex_.ptr_to(key), pt, gg, 'stub')
+            ex_.store(a[3], ex_.ptr_to(val), pt, gg, 'stub')
+            return z3.If(found, z3.BitVecVal(1, 32), z3.BitVecVal(0, 32))
+        ex.stubs['PyDict_Size'] = dsize
+        ex.stubs['PyDict_Next'] = dnext
+        tup_ok = z3.Bool('tuple_alloc_ok')
+        tup = ex.new_region('tuple', size=None, lazy=True)
+
+        def tnew(ex_, g, a, rt, caller):
+            env.set_error(z3.And(g, z3.Not(tup_ok)), ex_.ptr_to(env.exc_type('PyExc_MemoryError')))
+            return Ptr(z3.If(tup_ok, z3.BitVecVal(tup.base, 64), z3.BitVecVal(0, 64)), [tup.id, 0])
+        ex.stubs['PyTuple_New'] = tnew
+        env.exc_type('PyExc_RuntimeError')
+        pos = ex.new_region('pos', size=8, lazy=False); pos.fields[0] = (8, z3.BitVec('pos', 64))
+        slots = {}
+        for nm in ('pkey', 'pvalue', 'pitem'):
+            r = ex.new_region(nm, size=8, lazy=False)
+            r.fields[0] = (8, symex.NULLPTR)
+            slots[nm] = r
+        want = {'key': ('pkey',), 'value': ('pvalue',), 'key+value': ('pkey', 'pvalue'), 'item': ('pitem',)}[variant]
+        args = [d, orig, ex.ptr_to(pos)] + [ex.ptr_to(slots[nm]) if nm in want else symex.NULLPTR for nm in ('pkey', 'pvalue', 'pitem')]
+        ret, rg = ex.run(fname, args)
+    except (symex.Unsupported, ir.ParseError, KeyError, IndexError) as e:
+        return [dict(name='dict iteration step [%s]:encode' % variant, status='inconclusive', s=time.time() - t0, detail='Unsupported: %s' % str(e)[:300])]
+    pre = [dinv, orig >= 0, cur >= 0] + list(ex.assumptions)
+
+    def got(nm):
+        v = slots[nm].fields[0][1]
+        return v.bv if isinstance(v, Ptr) else v
+
+    def ob(name, conds, kind='unsat'):
+        r, m, s = solve.check(pre + conds, T)
+        d_ = dict(name='dict iteration step [%s]: %s' % (variant, name), s=s)
+        d_['status'] = ({'unsat': 'proved', 'sat': 'refuted'} if kind == 'unsat' else {'sat': 'witness', 'unsat': 'vacuous'}).get(r, 'inconclusive')
+        if r == 'sat' and kind == 'unsat':
+            d_['cex'] = dict(kind='dictiter', variant=variant, orig=m.eval(orig, model_completion=True).as_signed_long(), cur=m.eval(cur, model_completion=True).as_signed_long(),
+                             found=bool(m.eval(found, model_completion=True)))
+        out.append(d_)
+    ob('a dict whose size changed since the loop started raises RuntimeError, whether or not another entry exists (as CPython\'s dict iterators do)',
+       [cur != orig, z3.Not(z3.And(rg, ret == -1, env.error_is('PyExc_RuntimeError')))])
+    ob('same size, no further entry: the loop ends (0) without an exception', [cur == orig, z3.Not(found), z3.Not(z3.And(rg, ret == 0, env.no_error()))])
+    if variant == 'item':
+        okv = z3.And(ret == 1, got('pitem') == z3.BitVecVal(tup.base, 64))
+        ob('same size, another entry: 1 with a new (key, value) tuple, or -1 if the tuple cannot be allocated', [cur == orig, found, z3.Not(z3.And(rg, z3.If(tup_ok, z3.And(okv, env.no_error()), ret == -1)))])
+    else:
+        conds = [ret == 1, env.no_error()]
+        if 'pkey' in want:
+            conds.append(got('pkey') == z3.BitVecVal(key.base, 64))
+        if 'pvalue' in want:
+            conds.append(got('pvalue') == z3.BitVecVal(val.base, 64))
+        ob('same size, another entry: 1 and exactly the requested key / value are handed out', [cur == orig, found, z3.Not(z3.And(rg, *conds))])
+    return out
+
+
+DICT_REPLAY = r"""
+import sys
+sys.path.insert(0, %(dir)r)
+import %(mod)s as M
+bad = []
+def run(f, d):
+    try: return ('v', f(d))
+    except RuntimeError as e: return ('RuntimeError',)
+def py_dk(d):
+    r = []
+    for k in d:
+        r.append(k)
+        if k == 'grow': d['new'] = 1
+        if k == 'swap':
+            del d['swap']
+            d['other'] = 1
+        if k == 'del_last': del d['z']
+    else:
+        r.append('else')
+    return r
+def py_di(d):
+    r = []
+    for k, v in d.items():
+        r.append((k, v))
+        if k == 'del_last': del d['z']
+    else:
+        r.append('else')
+    return r
+for mk in (lambda: {'a': 1, 'b': 2}, lambda: {'a': 1, 'grow': 2}, lambda: {'grow': 1, 'b': 2}, lambda: {'z': 0, 'a': 1, 'del_last': 2}, lambda: {'a': 1, 'z': 0, 'del_last': 2},
+           lambda: {'swap': 1}, lambda: {'a': 0, 'swap': 1}, lambda: {}):
+    for f, g in ((M.dk, py_dk), (M.di, py_di)):
+        got, want = run(f, mk()), run(g, mk())
+        if got != want: bad.append((mk(), got, want))
+print('REPLAY', bad[:4])
+print('REPLAY-REPRODUCED' if bad else 'REPLAY-HOLDS')
+"""
+
+
 REPLAY = r'''
 import sys
 sys.path.insert(0, %(dir)r)
@@ -206,7 +349,7 @@ def run(rep, tier, only=None):
     rep.bounds += ['kernels: T in %s x {range(a, b, s) for s in 1 2 3 -1 -2 -7, range(b), reversed(range(a, b)), reversed(range(a, b, 2))} + 6 all-literal reversed ranges; '
                    'body with a symbolic break (flag and iteration index), else clause, read of the loop variable after the loop' % list(types),
                    'a, b anywhere in the range of T subject to: trip count <= %d (loops unrolled %d times, unwinding assertion discharged)' % (MAXTRIP, MAXTRIP + 1),
-                   'outside: iteration over dict/set/str/bytes contents (CPython API), run-time steps, C arrays, longer trip counts (same loop code)']
+                   'outside: iteration over set/str/bytes contents and non-exact dicts (CPython API), run-time steps, C arrays, longer trip counts (same loop code)']
     rep.assume('ev() is an event leaf; the ordered guarded event list is compared with the reference trace of the Python loop',
                'reference: Python range() semantics in exact (128-bit) arithmetic')
     with mp.Pool(min(16, os.cpu_count() or 4)) as pool:
@@ -240,7 +383,31 @@ def run(rep, tier, only=None):
                     rep.obligation(d['name'], 'inconclusive', d['s'], True, 'counterexample %s did not reproduce on the real build: %s' % (d['cex'], txt))
             else:
                 rep.obligation(d['name'], d['status'], d['s'], True, d.get('detail'))
+    if not only or 'dict' in only:
+        global _BD
+        _BD = harness.build_template('c14d', DICT_TEMPLATE)
+        dn = None
+        for variant in ('key', 'value', 'key+value', 'item'):
+            for d in check_dictiter(variant):
+                if d['status'] == 'refuted':
+                    if dn is None:
+                        dn = build.native(_BD.cfile)
+                    p = subprocess.run(['/verif/.venv/bin/python', '-c', DICT_REPLAY % dict(dir=os.path.dirname(dn), mod=_BD.name)], capture_output=True, text=True, timeout=60)
+                    txt = (p.stdout + p.stderr).strip()[-500:]
+                    rep.validated += 1
+                    if 'REPLAY-REPRODUCED' in txt or p.returncode < 0:
+                        rep.obligation(d['name'], 'refuted', d['s'], True, str(d['cex']))
+                        rep.violation('%s fails for %s: %s' % (d['name'], d['cex'], txt), dict(cex=d['cex'], replay_output=txt))
+                    else:
+                        rep.obligation(d['name'], 'inconclusive', d['s'], True, 'counterexample %s did not reproduce: %s' % (d['cex'], txt))
+                else:
+                    rep.obligation(d['name'], d['status'], d['s'], True, d.get('detail'))
+        rep.functions.append('Cython/Utility/Optimize.c dict_iter_common: __Pyx_dict_iter_next_source_is_dict (one step of `for k in d` / `.values()` / `.items()` over an exact dict)')
+        rep.bounds.append('dict iteration: ONE step from any state (any original length, any current size, another entry or not, tuple allocation failing or not), all four output shapes')
     rep.cov['states'] = states
     rep.cov['transitions'] = trans
     rep.cov['programs'] = len(ks)
-    rep.sample(dict(kernel=ks[0].name, source=ks[0].src))
+    if ks:
+        rep.sample(dict(kernel=ks[0].name, source=ks[0].src))
+    else:
+        rep.sample(dict(kernel='__Pyx_dict_iter_next_source_is_dict', inputs='orig_length, current size, another entry?, allocation ok? symbolic'))
